@@ -42,7 +42,7 @@ ASSUMPTIONS = [
     "All QNode arguments are trainable autograd tensors / jax arrays (qnode_spectrum documents that pure numpy arguments are not supported).",
     "reconstruct is also exercised on plain callables (the implementation takes the signature of non-QNode callables explicitly).",
 ]
-BUDGET = {"quick": {"examples": 170}, "thorough": {"examples": 6000, "shards": 16}}
+BUDGET = {"quick": {"examples": 140}, "thorough": {"examples": 6000, "shards": 16}}
 SHRINK_LISTS = ("ops",)
 
 # single-parameter encoding gates with a generator: name -> number of wires (0 = variable)
@@ -437,7 +437,12 @@ def _spectrum_call(fn, args, spec):
 
 def _const_params(spec):
     """True if the QNode contains gate parameters that are python constants (non-trainable tape parameters)."""
-    return bool(_weights(spec)) and not spec.get("w_arg")
+    if not _weights(spec):
+        return False
+    if not spec.get("w_arg"):
+        return True
+    # a weights argument that is not among the selected arguments is not traced by jax: its gate parameters are constants too
+    return spec.get("iface") == "jax" and spec.get("kind") == "qnode" and spec.get("sel") != "all"
 
 
 def _enc_count(spec):
